@@ -1170,6 +1170,12 @@ def _generate_structure_virtual_field_methods(enclosing_type_name, field_ir, ir)
         logical_type=logical_type,
         read_value=read_value.rendered,
         parent_type=enclosing_type_name,
+        # Inside a member function of the view, the bare name of the type's
+        # namespace can be hidden by a nested enum of the same name (`using Foo
+        # = ...` in the class), so the namespace is spelled in full.
+        parent_namespace=_get_fully_qualified_namespace(
+            field_ir.name.canonical_name, ir
+        ),
         field_exists=field_exists.rendered,
     )
     return "", declaration, definition
@@ -1185,8 +1191,11 @@ def _generate_validator_type_for(enclosing_type_name, field_ir, ir):
     validator_type_name = "EmbossReservedValidatorFor{}".format(
         name_conversion.snake_to_camel(field_name)
     )
+    # Fully qualified: the name is used inside the view class, where the bare
+    # name of the type's namespace can be hidden by a nested enum.
     qualified_validator_type_name = "{}::{}".format(
-        enclosing_type_name, validator_type_name
+        _get_fully_qualified_namespace(field_ir.name.canonical_name, ir),
+        validator_type_name,
     )
 
     validator_declaration = code_template.format_template(
